@@ -32,8 +32,109 @@ pub fn flags() -> Flags {
     Flags { property: "C18", record_results: true, ..Default::default() }
 }
 
+/// A file written by another implementation, with DIFAT sectors, is opened, read completely and
+/// written to on a plain disk and on a disk that cuts every transfer short / interrupts it: the
+/// structures `open` reads (header, DIFAT sectors, FAT, directory, MiniFAT) must come out the
+/// same however the reader splits them.  (The histories of the other cases start from `create`
+/// and stay far below the 109 FAT sectors after which DIFAT sectors exist.)
+fn gen_foreign(rng: &mut Rng) -> Case {
+    let mut c = Case::new("C18", "foreign-chunked", 3);
+    c.bufsize = *rng.pick(gen::BUFSIZES);
+    let mut plan = crate::imgwr::plan_from_seed(rng.next_u64(), 3);
+    plan.v3_size_high_garbage = false;
+    plan.total_fat_sectors = 110 + rng.below(270) as u32;
+    c.init = crate::case::Init::Foreign { content_seed: rng.next_u64(), max_entries: 12, max_stream: 9000, plan };
+    c.params.insert("chunk_seed".into(), (rng.next_u64() >> 2) as i64 | 1);
+    let mut nonce = 100u32;
+    for i in 0..rng.range(1, 4) {
+        nonce += 1;
+        c.ops.push(crate::ops::Op::WriteWhole { path: format!("/c18-new{}", i), len: *rng.pick(&[0u64, 100, 5000, 70_000]), nonce });
+    }
+    c.ops.push(crate::ops::Op::CreateStorage("/c18-dir".into()));
+    c
+}
+
+fn run_foreign(case: &Case) -> Outcome {
+    use crate::driver::Lib;
+    let mut o = Outcome::default();
+    let (content_seed, max_entries, max_stream, plan) = match &case.init {
+        crate::case::Init::Foreign { content_seed, max_entries, max_stream, plan } => (*content_seed, *max_entries, *max_stream, plan.clone()),
+        _ => return o,
+    };
+    let mut crng = Rng::new(content_seed);
+    let mut content = crate::imgwr::gen_content(&mut crng, max_entries, max_stream);
+    content.root.meta.created = 0;
+    let image = match crate::imgwr::write_image(&content, &plan) {
+        Ok(i) => i,
+        Err(e) => {
+            o.harness_error = Some(format!("imgwr refused its own content: {}", e));
+            return o;
+        }
+    };
+    // (results, final dump hash, final image, fired)
+    let exec = |chunked: bool, strict: bool| -> Result<(Vec<u64>, u64, Vec<u8>, u64), String> {
+        crate::driver::set_clock(crate::ops::T { secs: 1_600_000_000, nanos: 0 });
+        let disk = SimDisk::new(image.clone());
+        if chunked {
+            disk.0.borrow_mut().rates = Some(crate::disk::Rates { short_read: 300, short_write: 300, eintr: 200, rng: Rng::new(case.param("chunk_seed", 1) as u64) });
+        }
+        let mut lib = Lib::open(disk.clone(), strict, case.bufsize).map_err(|r| format!("open{} fails: {}", if strict { "_strict" } else { "" }, r.brief()))?;
+        lib.budget_base = 4_000_000;
+        let d0 = lib.dump(&[]).map_err(|r| format!("dump fails: {}", r.brief()))?;
+        let mut res = vec![crate::dump::hash_dump(&d0)];
+        for op in case.ops.iter() {
+            let got = lib.exec(op);
+            let mut h = crate::prng::Fnv::new();
+            got.hash_into(&mut h);
+            res.push(h.finish());
+        }
+        let d1 = lib.dump(&[]).map_err(|r| format!("final dump fails: {}", r.brief()))?;
+        let fired: u64 = disk.0.borrow().fired.values().sum();
+        let img = disk.snapshot();
+        lib.close();
+        Ok((res, crate::dump::hash_dump(&d1), img, fired))
+    };
+    for strict in [false, true] {
+        let plain = match exec(false, strict) {
+            Ok(x) => x,
+            Err(_) => {
+                o.stats.probe("reference_diverged(other property)");
+                return o;
+            }
+        };
+        o.stats.sub_runs += 2;
+        match exec(true, strict) {
+            Err(e) => {
+                o.violations.push(Violation { property: "C18".into(), rule: "chunked.foreign-fails".into(), site: "differential".into(), msg: format!("a foreign file with {} FAT sectors: on a disk that splits / interrupts transfers, {} (the plain disk succeeds)", plan.total_fat_sectors, e), step: 0 });
+                return o;
+            }
+            Ok(ch) => {
+                *o.stats.faults_fired.entry("F-SR/F-SW/F-EI".into()).or_insert(0) += ch.3;
+                if ch.0 != plain.0 || ch.1 != plain.1 {
+                    let pos = ch.0.iter().zip(plain.0.iter()).position(|(a, b)| a != b);
+                    o.violations.push(Violation { property: "C18".into(), rule: "chunked.foreign-results-differ".into(), site: "differential".into(), msg: format!("a foreign file with {} FAT sectors opened {}: results on a disk that splits / interrupts transfers differ from the plain disk (first difference at result {:?}; 0 = the dump right after open)", plan.total_fat_sectors, if strict { "strictly" } else { "permissively" }, pos), step: 0 });
+                    return o;
+                }
+                if ch.2 != plain.2 {
+                    o.violations.push(Violation { property: "C18".into(), rule: "chunked.foreign-image-differs".into(), site: "differential".into(), msg: "same results, but the final image on the chunking disk differs from the plain disk's".into(), step: 0 });
+                    return o;
+                }
+                o.stats.trace_hash ^= crate::prng::mix(crate::prng::fnv(&plain.2));
+            }
+        }
+    }
+    o.stats.state_hashes = vec![o.stats.trace_hash];
+    o.stats.ok_mutations = 1;
+    o.stats.nontrivial = true;
+    o.stats.probe("foreign_difat_under_chunking");
+    o
+}
+
 pub fn gen(seed: u64, idx: u64, _tier: Tier) -> Case {
     let mut rng = Rng::for_case(seed, "C18", idx);
+    if idx % 16 == 11 {
+        return gen_foreign(&mut rng);
+    }
     let k = Knobs { max_ops: 30, near_miss: &[0, 10], big_one_in: 8, big_stream: 100_000, ..DEFAULT_KNOBS };
     let exact = rng.chance(1, 2);
     let mut w = match rng.below(3) {
@@ -195,6 +296,9 @@ fn path_config(case: &Case, image: &[u8], b0: Option<usize>, o: &mut Outcome) ->
 }
 
 pub fn run(case: &Case, known: &BTreeSet<String>) -> Outcome {
+    if case.mode == "foreign-chunked" {
+        return run_foreign(case);
+    }
     let mut o = Outcome::default();
     let v0 = case.version;
     let b0 = case.bufsize;
